@@ -235,23 +235,28 @@ let run_runner toks impl =
       seen := List.length sent in
     let peer_ns = ref 1 and acked = ref 1 in
     (* latest admissible time of the acknowledgement of each inbound message, for ANY runner obeying runner_next with an
-       idle poll in (0, 500]: when the message arrives (a) the runner sleeps at most until max(a + 500, D) where D is
-       the earliest retransmission deadline pending at that moment; the Tick then sends the ZLB if a + zlbDelay has
-       passed, else comes back at the deadline: max(a + 200, a + 500, D) + 50 *)
+       idle poll in (0, 500]: when the message arrives (a) the runner sleeps at most until max(a + 500, D, T) where D is
+       the earliest retransmission deadline still pending after the message and T the Tick the runner had already
+       scheduled from the deadlines pending at its last Tick; that Tick sends the ZLB if a + zlbDelay has passed, else
+       comes back at the deadline: max(a + 500, D, T) + 50.  DRIVER-ONLY bound (not derived from a theorem). *)
     let bounds = ref [] in
+    let sched = ref 200 in     (* the Tick the runner has scheduled (it was computed from the deadlines pending at its last Tick
+                                  and is not revised by what arrives in between) *)
     let note_bound a =
       let dls = List.filter_map (fun p -> if iz p.p_att > 0 then Some (iz p.p_dl) else None) !n.n_ep.e_ch.c_q in
       let d = List.fold_left min max_int dls in
       let d = if d = max_int then a else d in
-      bounds := !bounds @ [max (a + 500) d + 50] in
+      bounds := !bounds @ [max (max (a + 500) d) !sched + 50] in
     let data ns nr = { k_body = Some (zi 1); k_sid = Z0; k_ns = zi ns; k_nr = zi nr } in
     let msg p rep t = n := node_step !n (NMsg ({ m_rc = head_choice; m_tid_ok = true; m_pkt = p; m_replies = rep; m_removes = false }, zi t)); note t in
     msg (data 0 0) [(zi 1, Z0)] 0;
     let tick_t = ref 200 in
     let do_event (at, k) =
+      sched := !tick_t;
       (match k with
-       | "scccn" | "hello" -> note_bound at; msg (data !peer_ns !acked) [] at; incr peer_ns
-       | "icrq" -> note_bound at; msg (data !peer_ns !acked) [(zi 1, Z0)] at; incr peer_ns
+       (* the bound is taken after the message has been processed: what it acknowledges no longer holds the runner back *)
+       | "scccn" | "hello" -> msg (data !peer_ns !acked) [] at; note_bound at; incr peer_ns
+       | "icrq" -> msg (data !peer_ns !acked) [(zi 1, Z0)] at; note_bound at; incr peer_ns
        | "ack" ->
          acked := iz !n.n_ep.e_ch.c_ns;
          msg { k_body = None; k_sid = Z0; k_ns = zi !peer_ns; k_nr = zi !acked } [] at
@@ -295,10 +300,27 @@ let run_runner toks impl =
         | (a, _) :: rest ->
           let v = i + 2 in      (* the i-th inbound message has Ns = i+1: acknowledged by Nr >= i+2 *)
           let ub = (match List.nth_opt !bounds i with Some b -> b | None -> a + 550) + 350 in
-          (if ub <= horizon then (match first_ack obs v a with Some t -> t <= ub | None -> false) else true)
+          (* an acknowledgement must have been OBSERVED, in time; the generator sizes the watch window so that every bound
+             lies inside it — an acknowledgement that is missing because the window was too short fails, it is not skipped *)
+          ignore horizon;
+          (match first_ack obs v a with Some t -> t <= ub | None -> false)
           && go (i + 1) rest in
       go 0 inbound in
-    if obs <> [] && data_ok (List.filter (fun (_, _, _, t) -> t <= horizon) (data !log)) (data obs) && acks_ok then impl
+    (* (3) the sequence fields of EVERY observed write (timing stays free):
+           - Nr never decreases and never exceeds what has been received by then (1 for the SCCRQ + the in-order inbound
+             messages that have arrived): no acknowledgement of something not received;
+           - a ZLB carries the current Ns (the next one to be assigned) and does not consume it; a sequenced write is either
+             the next new Ns or a retransmission of an earlier one. *)
+    let fields_ok =
+      let cur_ns = ref 0 and last_nr = ref 0 in
+      List.for_all (fun (k, ns, nr, t) ->
+          let received = 1 + List.length (List.filter (fun (a, _) -> a <= t + 5) inbound) in
+          let nr_ok = nr >= !last_nr && nr <= received in
+          last_nr := max !last_nr nr;
+          let ns_ok = if k = "z" then ns = !cur_ns
+            else if ns = !cur_ns then (incr cur_ns; true) else ns < !cur_ns in
+          nr_ok && ns_ok) obs in
+    if obs <> [] && data_ok (List.filter (fun (_, _, _, t) -> t <= horizon) (data !log)) (data obs) && acks_ok && fields_ok then impl
     else "runner " ^ String.concat " " (List.map show !log) ^ " (predicted)"
   | _ -> "badline"
 
@@ -402,12 +424,15 @@ let run_e2e toks =
     List.iteri (fun i _ -> if i >= before then begin
         let key = dir x ^ string_of_int i in
         let put t = incr seqno; transit := !transit @ [(t, !seqno, other x, i)] in
-        if has key 'v' && not (has key 'x') then put (now + 300);
-        if has key 'x' then ()
+        let cut = List.exists (fun t -> String.length t >= 3 && t.[0] = 'X' && String.make 1 t.[1] = dir x
+                                        && i >= ios (String.sub t 2 (String.length t - 2))) toks in
+        if cut then ()
+        else if has key 'v' && not (has key 'x') then (put (now + 300); if has key 'l' then put (now + 300) else begin put now; if has key 'u' then put now end)
+        else if has key 'x' then ()
         else if has key 'l' then put (now + 300)
         else begin put now; if has key 'u' then put now end
       end) sent in
-  let lac_up = ref true and lac_s = ref 0 in
+  let lac_up = ref true and lac_s = ref 0 and lns_dead = ref false in
   (* returns true when the write of this submission failed (SendSession returned the transport error) *)
   let submit x b now =
     let before = List.length (ep_of !s x).e_sent in
@@ -438,6 +463,7 @@ let run_e2e toks =
        transit := List.filter (fun (_, q', _, _) -> q' <> q) !transit;
        now := max !now tp;
        if x = SA && not !lac_up then ()       (* no tunnel: ErrNoSuchTunnel *)
+       else if x = SB && !lns_dead then ()     (* tunnel unregistered; SCCRQ copies hit the closed-connection record *)
        else if x = SB && cnt 1 SB = 0 && (List.nth (ep_of !s SA).e_sent i).k_body <> Some (zi 1) then ()
        else begin
          let before = List.length (ep_of !s x).e_sent in
@@ -452,16 +478,23 @@ let run_e2e toks =
        let drops = List.map nat_of_int (failing x) in
        let (s', o) = step false !s (Tick (x, zi !now, drops)) in
        s := s'; account x o; scan x before !now;
-       (match o with OTick (ret, _, _) -> Hashtbl.replace tick x (iz (runner_next (zi 500) ret (zi !now))) | _ -> ())
+       (match o with
+        | OTick (_, _, true) ->
+          (* the model's dead flag = the dead callback of startTunnelRunner: the tunnel (and its sessions) is unregistered *)
+          Hashtbl.remove tick x;
+          if x = SA then begin lac_up := false; lac_s := 0 end else lns_dead := true
+        | OTick (ret, _, _) -> Hashtbl.replace tick x (iz (runner_next (zi 500) ret (zi !now)))
+        | _ -> ())
      | _ -> continue := false);
     if cnt 5 SA >= 1 && cnt 6 SB >= 1 && !settled < 0 then settled := !now;
     if (!settled >= 0 && !now > !settled + 700) || !now > wait then continue := false
   done;
   let a = !s.s_a.e_ch and b = !s.s_b.e_ch in
   let sq c = Printf.sprintf "%d/%d" (iz c.c_ns) (iz c.c_nr) in
+  let lns_t = if !lns_dead then 0 else cnt 1 SB in
   Printf.sprintf "e2e lac=T%dS%d,%s lns=T%dS%d,%s est=%d%d" (if !lac_up then 1 else 0) !lac_s (if !lac_up then sq a else "-")
-    (cnt 1 SB) (cnt 4 SB) (if cnt 1 SB = 0 then "-" else sq b)
-    (min 1 (cnt 5 SA)) (min 1 (cnt 6 SB))
+    lns_t (if !lns_dead then 0 else cnt 4 SB) (if lns_t = 0 then "-" else sq b)
+    (if !lac_up then min 1 (cnt 5 SA) else 0) (if !lns_dead then 0 else min 1 (cnt 6 SB))
 
 let () =
   let lines = read_lines Sys.argv.(1) in
